@@ -94,7 +94,15 @@ def parseMetric (s : String) : Option (Metric Float) :=
     | _, _ => none
   | _ => none
 
-def parseBound (s : String) : Option Int := if s == "z" then none else s.toInt?
+/-- a date bound as an exact instant in nanoseconds since the epoch (an unbounded `Int`: no wrap-around);
+`z` and the zero time given in seconds (0001-01-01T00:00:00Z) are open bounds; `s<seconds>` may lie far outside the
+window int64 nanoseconds can hold -/
+def parseBound (s : String) : Option Int :=
+  if s == "z" || s == "s-62135596800" then none
+  else if s.startsWith "s" then ((s.drop 1).toString.toInt?).map (· * 1000000000)
+  else s.toInt?
+
+def outsideInt64 (x : Int) : Bool := x < -(2 ^ 63 : Int) || x ≥ (2 ^ 63 : Int)
 
 def parseSub (s : String) : Option (SubAgg Float) :=
   match s.splitOn ":" with
@@ -436,7 +444,14 @@ def reqStep (st : St) (ws : List String) (impl : String) : St × String × Strin
   let sketchBr := (if nested.any (fun (_, isQ, _, _) => isQ) then ["nested-quantiles"] else [])
     ++ (if nested.any (fun (_, isQ, _, _) => !isQ) then ["nested-cardinality"] else [])
     ++ (if (nested.filter fun (_, _, truth, _) => !truth.isEmpty).length ≥ 2 then ["nested-sketch-several-buckets"] else [])
-  let brs := brs ++ loadBr ++ termBr ++ sketchBr ++ (if hits.isEmpty then ["no-match"] else [])
+  let dateBr := (if aggs.any (fun a => match a with
+        | .dranges _ rs _ => rs.any fun r => (r.1.any outsideInt64) || (r.2.any outsideInt64)
+        | _ => false) then ["date-bound-outside-int64-nanos"] else [])
+    ++ (if aggs.any (fun a => match a with
+        | .dranges f rs _ => rs.any fun r => (r.1.any outsideInt64 || r.2.any outsideInt64) &&
+            (occR (dateSrc f) inDateRange r trueMs).length > 0
+        | _ => false) then ["date-range-far-bound-nonempty"] else [])
+  let brs := brs ++ loadBr ++ termBr ++ sketchBr ++ dateBr ++ (if hits.isEmpty then ["no-match"] else [])
     ++ (if compared then ["paging-compared"] else [])
   ({ st with memo := memo }, modelStr, verdict ++ " br=" ++ ",".intercalate brs.eraseDups)
 
